@@ -43,8 +43,8 @@ func TestMain(m *testing.M) {
 			os.Stderr = f
 		}
 	}
-	vlib.Rule("C12: histories of 6-40 steps (up to 80 thorough) over 2-5 modelled volume servers in 1-2 data centers x 1-2 racks, each with disks hdd and/or ssd, volume ids 1..8, EC volume ids 21..26. " +
-		"Steps: local changes on a server (add/delete a volume, flip its remote-tier or read-only flag, change the max volume count of one or of all disk types (0 included), mount/unmount shards of 1-4 EC volumes at once), " +
+	vlib.Rule("C12: histories of 6-40 steps (up to 80 thorough) over 2-5 modelled volume servers in 1-2 data centers x 1-2 racks, each with disks hdd and/or ssd, volume ids and EC volume ids both from 1..8 (an id can be a normal volume and have EC shards on the same disk of a server at the same time, as during ec.encode). " +
+		"Steps: local changes on a server (add/delete a volume, flip its remote-tier or read-only flag, change the max volume count of one or of all disk types (0 included), mount/unmount shards of 1-4 EC volumes at once, ec.encode of a held volume = mount EC shards of its id on its disk then delete the volume), " +
 		"full volume heartbeat (true volume list + max counts), full EC heartbeat, delivery of the oldest queued incremental message (so full heartbeats overtake incremental ones), replay of an earlier incremental message (duplicate/stale), stream end (UnRegisterDataNode) and reconnect. " +
 		"The counter invariant is checked after every step. Plus deterministic bounded enumerations of two-heartbeat EC / max-count / delete scenarios. " +
 		"Non-trivial = the history contains a step that changed >= 2 EC volumes of one server, or changed counters of >= 2 disk types, or delivered an incremental delete for a volume the master no longer has. Distinct = distinct written-out history.")
@@ -110,9 +110,9 @@ type world struct {
 	servers []*server
 	hist    []string
 	// what the history contained (for the non-trivial rule and classes)
-	multiEc, multiDisk, staleDelete, remoteDelete, bothMax, ecFullMulti bool
-	ops                                                                 map[string]int
-	rot                                                                 int
+	multiEc, multiDisk, staleDelete, staleDeleteEc, remoteDelete, bothMax, ecFullMulti bool
+	ops                                                                                map[string]int
+	rot                                                                                int
 }
 
 func newWorld() *world {
@@ -275,6 +275,11 @@ func (w *world) deliver(s *server, m *message) {
 					continue
 				}
 				w.staleDelete = true
+				for _, e := range s.dn.GetEcShards() {
+					if uint32(e.VolumeId) == d.Id && e.DiskType == d.DiskType {
+						w.staleDeleteEc = true
+					}
+				}
 			case remote:
 				if vlib.Known(kRemoteDel) {
 					vlib.Excluded(kRemoteDel)
@@ -612,6 +617,7 @@ func (w *world) step(t *rapid.T) (string, error) {
 	add("fullVol", 4, connected)
 	add("deliver", 5, connected && len(s.Pending) > 0)
 	add("ecChurn", 4, true)
+	add("ecEncode", 3, len(s.Vols) > 0)
 	add("changeMax", 2, true)
 	add("addVol", 2, len(s.Vols) < 8)
 	add("delVol", 2, len(s.Vols) > 0)
@@ -684,6 +690,26 @@ func (w *world) step(t *rapid.T) (string, error) {
 			}
 		}
 		w.local(s, strings.Join(d, " "))
+	case "ecEncode":
+		// ec.encode of a held volume: shards of the same id are mounted on the volume's disk, then the volume is deleted
+		vid := rapid.SampledFrom(sortedKeys(s.Vols)).Draw(t, "vid")
+		v := s.Vols[vid]
+		e := s.Ecs[vid]
+		old := uint32(0)
+		if e == nil {
+			e = &ecState{Id: vid, Dt: v.Dt}
+		} else {
+			old = e.Bits
+		}
+		e.Bits = old | genBits(t, "shards")
+		s.Ecs[vid] = e
+		if gain := e.Bits &^ old; gain != 0 {
+			s.queue(&message{&master_pb.Heartbeat{NewEcShards: []*master_pb.VolumeEcShardInformationMessage{{Id: vid, Collection: collectionOf(vid), EcIndexBits: gain, DiskType: e.Dt}}},
+				fmt.Sprintf("newEc(ec%d@%s:%014b)", vid, dtName(e.Dt), gain)})
+		}
+		delete(s.Vols, vid)
+		s.queue(&message{&master_pb.Heartbeat{DeletedVolumes: []*master_pb.VolumeShortInformationMessage{s.shortMsg(v)}}, fmt.Sprintf("deleted(v%d@%s)", vid, dtName(v.Dt))})
+		w.local(s, fmt.Sprintf("ec.encode v%d@%s -> ec%d:%014b, delete v%d", vid, dtName(v.Dt), vid, e.Bits, vid))
 	case "ecChurn":
 		k := rapid.IntRange(1, 4).Draw(t, "ecVolumes")
 		combined := rapid.Bool().Draw(t, "oneMessage")
@@ -691,7 +717,7 @@ func (w *world) step(t *rapid.T) (string, error) {
 		var d, md []string
 		used := map[uint32]bool{}
 		for i := 0; i < k; i++ {
-			vid := uint32(rapid.IntRange(21, 26).Draw(t, "ecVid"))
+			vid := uint32(rapid.IntRange(1, 8).Draw(t, "ecVid"))
 			if used[vid] {
 				continue
 			}
@@ -806,6 +832,8 @@ func genWorld(t *rapid.T) *world {
 	for i := 0; i < n; i++ {
 		s := &server{Idx: i, DC: fmt.Sprintf("dc%d", i%nDC+1), Rack: fmt.Sprintf("rack%d", (i/nDC)%nRack+1), Ip: fmt.Sprintf("10.0.0.%d", i+1), Port: 8080,
 			Max: map[string]uint32{}, Vols: map[uint32]*volState{}, Ecs: map[uint32]*ecState{}, dtOfVol: map[uint32]string{}, dtOfEc: map[uint32]string{}}
+		// an id lives on one disk type of a server, as a volume and as EC shards (ec.encode writes the shards next to the volume)
+		s.dtOfEc = s.dtOfVol
 		switch rapid.SampledFrom([]int{0, 1, 2, 2, 2}).Draw(t, "disks") {
 		case 0:
 			s.Types = []string{""}
@@ -831,13 +859,16 @@ func genWorld(t *rapid.T) *world {
 			s.Vols[vid] = v
 		}
 		for k := rapid.IntRange(0, 3).Draw(t, "initialEcVolumes"); k > 0; k-- {
-			vid := uint32(rapid.IntRange(21, 26).Draw(t, "ecVid"))
+			vid := uint32(rapid.IntRange(1, 8).Draw(t, "ecVid"))
 			if s.Ecs[vid] != nil {
 				continue
 			}
-			e := &ecState{Id: vid, Dt: rapid.SampledFrom(s.Types).Draw(t, "ecDisk"), Bits: genBits(t, "bits")}
-			s.dtOfEc[vid] = e.Dt
-			s.Ecs[vid] = e
+			dt, ok := s.dtOfEc[vid]
+			if !ok {
+				dt = rapid.SampledFrom(s.Types).Draw(t, "ecDisk")
+				s.dtOfEc[vid] = dt
+			}
+			s.Ecs[vid] = &ecState{Id: vid, Dt: dt, Bits: genBits(t, "bits")}
 		}
 		w.servers = append(w.servers, s)
 	}
@@ -894,7 +925,7 @@ func TestPropAccounting(t *testing.T) {
 		for _, c := range []struct {
 			on   bool
 			name string
-		}{{w.multiEc, "has-step-changing>=2-ec-volumes"}, {w.multiDisk, "has-step-changing>=2-disk-types"}, {w.staleDelete, "has-stale-incremental-delete"},
+		}{{w.multiEc, "has-step-changing>=2-ec-volumes"}, {w.multiDisk, "has-step-changing>=2-disk-types"}, {w.staleDelete, "has-stale-incremental-delete"}, {w.staleDeleteEc, "has-stale-incremental-delete-of-id-with-ec-shards-on-that-disk"},
 			{w.remoteDelete, "has-incremental-delete-of-remote-volume"}, {w.bothMax, "has-heartbeat-changing-max-of-2-disk-types"},
 			{w.ecFullMulti, "has-full-ec-heartbeat-changing-counts-with>=2-registered"}, {w.ops["disconnect"] > 0, "has-disconnect"}, {w.ops["replay"] > 0, "has-replay"}} {
 			if c.on {
